@@ -227,3 +227,25 @@ mod tests {
         }
     }
 }
+
+#[cfg(cozy_chess_verif)]
+impl ZobristBoard {
+    /// Verification hook: assemble a `ZobristBoard` from raw field values.
+    pub fn verif_from_raw(
+        pieces: [u64; Piece::NUM],
+        colors: [u64; Color::NUM],
+        side_to_move: Color,
+        castle_rights: [CastleRights; Color::NUM],
+        en_passant: Option<File>,
+        hash: u64
+    ) -> Self {
+        Self {
+            pieces: pieces.map(BitBoard),
+            colors: colors.map(BitBoard),
+            side_to_move,
+            castle_rights,
+            en_passant,
+            hash
+        }
+    }
+}
